@@ -12,7 +12,7 @@ from __future__ import annotations
 
 from ..absint import (comparison_only, constants_compared, eval_term, order_points, path_matches)
 from ..facts import AnalysisError
-from ..terms import contains, is_const, show, strip_sites
+from ..terms import contains, is_const, show, strip_sites, subterms
 from ..util import NoInline, P, calls_named, calls_to, engine, loc, mentions_param, param_at, stores
 
 STORAGE = "sd._SessionStorage"
@@ -105,6 +105,31 @@ def check(run, prog, tier):
            "only the record under (sender, channel) of the current message is read, written or removed" if (canonical is not None and not foreign and not whole) else
            (f"the record under {show(foreign[0][1])} is modified while checking a message of (sender, channel): another channel's / sender's history is lost, "
             "its next reboot indication is masked" if foreign else "the whole memory is modified" if whole else "no canonical (sender, channel) key found"))
+
+    # nobody else touches the memory: a record dropped or rewritten elsewhere (e.g. "forget the sender after a reboot") makes
+    # the next message of that sender / channel a 'first message', which masks the detection it should have triggered
+    from ..util import Scan
+    scan_ = Scan(prog)
+    others = []
+    for f2, r2, e2 in scan_.all():
+        if f2.qual == fi.qual or (f2.cls is not None and f2.cls.qual == STORAGE and f2.name == "__init__"):
+            continue
+        tgt = None
+        if e2.kind == "store" and e2.target is not None:
+            tgt = e2.target
+        elif e2.kind == "call" and e2.attrname in ("pop", "clear", "update", "setdefault", "popitem", "__delitem__", "__setitem__") and e2.recv is not None:
+            tgt = e2.recv
+        if tgt is None:
+            continue
+        for s_ in subterms(tgt):
+            if s_[0] == "attr" and s_[2] == mem_attr:
+                ty = eng.typer.type_of(s_[1])
+                if ty == ("cls", STORAGE) or s_[1] == ("self", STORAGE):
+                    others.append((f2, e2))
+    run.ob("P3", f"{STORAGE}:only-{fi.name}-writes-{mem_attr}", not others, loc(others[0][0], others[0][1].node) if others else loc(fi),
+           f"the per-sender memory is written only by {fi.name}" if not others else
+           f"{others[0][0].qual} also changes the per-sender memory: the next message of the affected sender / channel is compared with nothing "
+           "(treated as a first message) and a reboot it reveals goes unnoticed")
 
     # ---------------------------------------------------------------- P2 state update
     for i, p in enumerate(paths):
